@@ -154,6 +154,52 @@ func reencodings(t *harness.TxSpec) []reenc {
 			}
 		}
 	}
+	// documents on which the JSON decoder REPORTS AN ERROR BUT STILL FILLS THE STRUCT: encoding/json skips a
+	// value of the wrong type (UnmarshalTypeError), goes on decoding, and a second, well-typed occurrence of
+	// the same key (before or after) sets the field. A node that only logs the error executes such bytes
+	// like the canonical ones, under another hash.
+	{
+		wrong := func(v json.RawMessage) string {
+			if len(v) > 0 && v[0] == '"' {
+				return "5"
+			}
+			return `"x"`
+		}
+		var keysInOrder []string
+		dec := json.NewDecoder(bytes.NewReader(orig))
+		if tok, err := dec.Token(); err == nil && tok == json.Delim('{') {
+			for dec.More() {
+				kt, err := dec.Token()
+				if err != nil {
+					break
+				}
+				k, _ := kt.(string)
+				keysInOrder = append(keysInOrder, k)
+				var skip json.RawMessage
+				if dec.Decode(&skip) != nil {
+					break
+				}
+			}
+		}
+		last := bytes.LastIndexByte(orig, '}')
+		for _, k := range keysInOrder {
+			if len(orig) < 2 || last < 0 {
+				break
+			}
+			kk := string(mustJSON(k))
+			add("wrong-typed-duplicate-of-"+k+"-first", "decoder-error-tolerated", append([]byte("{"+kk+":"+wrong(top[k])+","), orig[1:]...))
+			add("wrong-typed-duplicate-of-"+k+"-last", "decoder-error-tolerated", append(append(append([]byte(nil), orig[:last]...), []byte(","+kk+":"+wrong(top[k]))...), orig[last:]...))
+		}
+		// one level down: inside the fee object
+		if fee, ok := top["fee"]; ok && len(fee) > 2 && fee[0] == '{' {
+			cp := map[string]json.RawMessage{}
+			for k, v := range top {
+				cp[k] = v
+			}
+			cp["fee"] = json.RawMessage(`{"gas":"x",` + string(fee[1:]))
+			add("wrong-typed-duplicate-of-fee.gas-first", "decoder-error-tolerated", rebuildInOrder(orig, cp))
+		}
+	}
 	// the signature bytes themselves are not covered by any signature: trailing bytes
 	{
 		stx := t.Signed()
@@ -272,9 +318,10 @@ func c05Exec(j c05Job) c05Res {
 	wire := res[j.Op].wire
 	orig := t.Bytes()
 	// (1) the re-encoding must carry the same signed content and be admitted on a fresh state
-	if j.Op > 0 && res[j.Op].class != "signature-trailing-bytes" && res[j.Op].class != "unsigned-field" {
+	if j.Op > 0 && res[j.Op].class != "signature-trailing-bytes" && res[j.Op].class != "unsigned-field" && res[j.Op].class != "decoder-error-tolerated" {
 		// pure re-encodings must parse to the same content; variants of parts that no signature covers
-		// (signature bytes, unused signer key) differ by construction and only have to be admitted
+		// (signature bytes, unused signer key) differ by construction and only have to be admitted; documents
+		// on which the decoder reports an error have no well-defined parse and only have to be admitted as well
 		if !sameParsed(wire, orig) {
 			return c05Res{Skip: "parsed content differs"}
 		}
